@@ -146,7 +146,7 @@ def c04(ctx):
 from . import e2e
 import glob
 
-COL = {name: i for i, name in enumerate(['agree', 'C01', 'C03', 'C04', 'C05', 'C11', 'C12', 'C13', 'C01struct', 'C03values', 'C06'])}
+COL = {name: i for i, name in enumerate(['agree', 'C01', 'C03', 'C04', 'C05', 'C11', 'C12', 'C13', 'C01struct', 'C03values', 'C06', 'C08'])}
 
 
 def load_corpus(pid):
@@ -269,6 +269,8 @@ def method_check(ctx, col, gens, n_quick, n_thorough, rule, agree_col='agree', a
                        'response': res.get('resp') or res.get('err'), 'model': model[:6000]}, found_input=False)
     elif broken:
         ctx.notes.append('correspondence also broken on %d cases' % len(broken))
+    if getattr(ctx, 'before_finish', None) and not ctx.replay:
+        ctx.before_finish(ctx)
     return ctx.finish(rule, './check %s' % pid)
 
 
@@ -527,3 +529,172 @@ def c07(ctx):
     return ctx.finish(
         'random requests: 7 methods x bias sequences of length 1-4 with repetition over the 6 biases and their options, considered = / '
         'subset of known; every traced bias application is one evaluation; distinct = (method, bias, options, sizes, sequence)', './check C07')
+
+
+@check('C06')
+def c06(ctx):
+    def dominated(rnd):
+        """electre requests in which some alternative dominates another (ties on some criteria)"""
+        req = gen.electre_request(rnd, n_alts=rnd.choice([3, 4, 5, 6]))
+        alts = req['knownAlternatives']
+        a, b = rnd.sample(range(len(alts)), 2)
+        for c in req['criteria']:
+            sg = -1 if c['type'] == 'cost' else 1
+            delta = rnd.choice([0, 0, 0.25, 0.5, 1.0, 2.0])
+            alts[b]['criteria'][c['id']] = alts[a]['criteria'][c['id']] - sg * delta
+        return req
+
+    def meta(ctx2):
+        rnd = ctx2.rnd
+        for _ in range(n_cases(ctx2, 60, 1500)):
+            req = dominated(rnd) if rnd.random() < 0.5 else gen.electre_request(rnd)
+            base = ctx2.pipe.call({'op': 'decide', 'req': req})
+            if not base.get('ok'):
+                continue
+            idx = {e['alternative']['id']: (e['evaluation'], sorted(e['betterThanOrSameAs'])) for e in base['resp']['result']}
+            for _ in range(2):
+                pr = gen.permuted(rnd, req)
+                r2 = ctx2.pipe.call({'op': 'decide', 'req': pr})
+                ctx2.count('metamorphic/permutation')
+                got = {e['alternative']['id']: (e['evaluation'], sorted(e['betterThanOrSameAs'])) for e in r2['resp']['result']} if r2.get('ok') else None
+                if got != idx:
+                    ctx2.violation('listing the alternatives in another order changes ELECTRE indices or links',
+                                   {'request': req, 'permuted': pr, 'result': base.get('resp'), 'permuted_result': r2.get('resp') or r2.get('err')},
+                                   {'method': 'electreIII'})
+            for m in (-3, 1, 10):
+                sr = json.loads(json.dumps(req))
+                for v in sr['methodParameters']['electreCriteria'].values():
+                    v['k'] = v['k'] * (2.0 ** m)
+                r3 = ctx2.pipe.call({'op': 'decide', 'req': sr})
+                ctx2.count('metamorphic/scaling')
+                if not r3.get('ok') or r3['resp']['result'] != base['resp']['result']:
+                    ctx2.violation('multiplying every weight k by 2^%d changes the ELECTRE result' % m,
+                                   {'request': req, 'scaled': sr, 'result': base.get('resp'), 'scaled_result': r3.get('resp') or r3.get('err')},
+                                   {'method': 'electreIII'})
+    ctx.before_finish = meta
+    return method_check(ctx, 'C06', [(2, dominated), (1, gen_method('electreIII'))], 250, 5000,
+                        'electreIII requests with a planted dominated/dominating pair (ties on some criteria) inside 1-4 further '
+                        'alternatives, plus random requests; every dominating and identical pair of each response is checked; '
+                        'metamorphic groups: two listing-order permutations and weights x 2^m (m = -3, 1, 10) per request',
+                        agree_col='agree')
+
+
+@check('C08')
+def c08(ctx):
+    def g(rnd):
+        req = gen.any_request(rnd)
+        return gen.add_biases(rnd, req, length=rnd.choice([1, 2, 3, 4, 5]), prob_mix=True, disabled_prob=0.25)
+
+    def meta(ctx2):
+        rnd = ctx2.rnd
+        for _ in range(n_cases(ctx2, 80, 2000)):
+            req = g(rnd)
+            base = ctx2.pipe.call({'op': 'decide', 'req': req})
+            if not base.get('ok'):
+                continue
+            en = e2e.enabled_biases(req)
+            if not en:
+                continue
+            fired = [b.get('props') is not None for b in base['resp']['biases']]
+            # (a) a disabled entry (even with an unknown name) is equivalent to leaving it out
+            r2 = dict(req, biases=list(req['biases']))
+            r2['biases'].insert(rnd.randint(0, len(r2['biases'])), {'name': rnd.choice(['noSuchBias', 'fatigue']), 'disabled': True,
+                                                                    'props': {'anything': 1}})
+            o2 = ctx2.pipe.call({'op': 'decide', 'req': r2})
+            ctx2.count('metamorphic/disabled-inserted')
+            if o2.get('resp') != base.get('resp'):
+                ctx2.violation('inserting a disabled bias changes the response', {'request': req, 'with_disabled': r2,
+                               'response': base.get('resp'), 'other': o2.get('resp') or o2.get('err')}, {})
+            # (b) whether position i fires does not depend on the other entries
+            i = rnd.randrange(len(en))
+            r3 = json.loads(json.dumps(req))
+            en3 = e2e.enabled_biases(r3)
+            for j, b in enumerate(en3):
+                if j != i:
+                    nb = gen.gen_bias(rnd, rnd.choice(gen.BIASES), r3, len(r3['criteria']))
+                    b.clear()
+                    b.update(nb)
+                    b['applyProbability'] = rnd.choice([0.0, 1.0, round(rnd.random(), 3)])
+            o3 = ctx2.pipe.call({'op': 'decide', 'req': r3})
+            ctx2.count('metamorphic/others-changed')
+            if o3.get('ok'):
+                f3 = o3['resp']['biases'][i].get('props') is not None
+                mix = en[i].get('name') == 'criteriaMixing'
+                if f3 != fired[i] and not mix:
+                    ctx2.violation('whether the bias at enabled position %d fires depends on the other biases' % i,
+                                   {'request': req, 'changed': r3, 'fired': fired, 'other': o3['resp']['biases']}, {})
+            # (c) monotone in its own probability; 0 never, 1 always
+            for p, must in ((0.0, False), (1.0, True)):
+                r4 = json.loads(json.dumps(req))
+                e2e.enabled_biases(r4)[i]['applyProbability'] = p
+                o4 = ctx2.pipe.call({'op': 'decide', 'req': r4})
+                ctx2.count('metamorphic/prob-%s' % p)
+                if o4.get('ok') and en[i].get('name') != 'criteriaMixing':
+                    f4 = o4['resp']['biases'][i].get('props') is not None
+                    if f4 != must:
+                        ctx2.violation('applyProbability %s %s' % (p, 'did not fire' if must else 'fired'),
+                                       {'request': r4, 'echo': o4['resp']['biases']}, {})
+    ctx.before_finish = meta
+    return method_check(ctx, 'C08', [(1, g)], 300, 6000,
+                        'random requests over all methods with 1-5 biases, probabilities in {0, 1, random}, disabled entries with known and '
+                        'unknown names at every position; echoes checked against the bias-apply stream of the seed; metamorphic: insert a '
+                        'disabled bias, replace all other biases, set own probability to 0 / 1', agree_col='C08')
+
+
+def reduced_request(req, stage):
+    """the request with the omitted criteria deleted (criteria in the order the bias left them)"""
+    after = stage['curAfter']
+    kept = [c['Id'] for c in after['Criteria']]
+    decl = {c['id']: c for c in req['criteria']}
+    r = json.loads(json.dumps(req))
+    r['criteria'] = [decl[k] for k in kept]
+    for a in r['knownAlternatives']:
+        a['criteria'] = {k: v for k, v in a['criteria'].items() if k in kept}
+    mp = r['methodParameters']
+    m = req['preferenceFunction']
+    if m == 'choquetIntegral':
+        mp['weights'] = {k: v for k, v in mp['weights'].items() if all(p in kept for p in k.split(','))}
+    elif 'weights' in mp:
+        mp['weights'] = {k: v for k, v in mp['weights'].items() if k in kept}
+    if 'electreCriteria' in mp:
+        mp['electreCriteria'] = {k: v for k, v in mp['electreCriteria'].items() if k in kept}
+    if isinstance(mp.get('params'), dict) and mp['params'].get('thresholds') is not None:
+        mp['params']['thresholds'] = [{k: v for k, v in t.items() if k in kept} for t in mp['params']['thresholds']]
+    return r
+
+
+@check('C15')
+def c15(ctx):
+    def first_omission(rnd):
+        rest = [rnd.choice(gen.BIASES) for _ in range(rnd.choice([0, 0, 1]))]
+        return gen.biased_request(rnd, names=['criteriaOmission'] + rest, prob_mix=False)
+    infos, verd, reqs, ress = stage_check(ctx, 'C15', ['criteriaOmission'],
+                                          [(2, seq_with('criteriaOmission')), (2, first_omission)], 260, 5000, '',
+                                          agree_names=['criteriaOmission'])
+    # the decision equals the one for the request with the omitted criteria deleted
+    done = 0
+    for req, res in zip(reqs, ress):
+        en = e2e.enabled_biases(req)
+        if not res.get('ok') or not en or en[0].get('name') != 'criteriaOmission' or any(b.get('disabled') for b in req['biases']):
+            continue
+        st = [s for s in res.get('stages') or [] if s['name'] == 'criteriaOmission']
+        if not st or st[0].get('curAfter') is None or not st[0]['curAfter']['Criteria']:
+            continue
+        if req['preferenceFunction'] == 'aspectEliminationHeuristic' and tied_aspect_weights(req, res):
+            continue
+        red = reduced_request(req, st[0])
+        red['biases'] = [b for b in req['biases'][1:]]
+        # the bias-apply draws shift by one position: all remaining biases have probability 1
+        r2 = ctx.pipe.call({'op': 'decide', 'req': red})
+        ctx.count('metamorphic/reduced-request')
+        done += 1
+        if not r2.get('ok') or r2['resp']['result'] != res['resp']['result']:
+            ctx.violation('the decision after criteria omission differs from the decision for the request with those criteria deleted',
+                          {'request': req, 'reduced': red, 'response': res.get('resp'), 'reduced_response': r2.get('resp') or r2.get('err')},
+                          {'method': req['preferenceFunction'], 'bias': 'criteriaOmission'})
+    ctx.notes.append('reduced-request comparisons: %d' % done)
+    return ctx.finish(
+        'traced applications of criteriaOmission inside random bias sequences over all methods: five orderings and seeds, ratios on '
+        'floor boundaries, min/max clamps, superfluous parameter entries; plus, where omission is the first bias, the decision is compared '
+        'with the decision for the request with the omitted criteria deleted; distinct = (method, ordering, sizes, bias sequence)',
+        './check C15')
